@@ -153,6 +153,14 @@ def reglist_forms(rnd=None, with_d=True):
         yield Form(mn, mn, "reglist.own-stack", "A," + own, None, {})
         yield Form(mn, mn, "reglist.empty", "", None, {})
         yield Form(mn, mn, "reglist.unknown", "A,Q", None, {})
+        for red, want in (("A,D", ["A", "B"]), ("D,B", ["A", "B"]), ("A,B,D", ["A", "B"]), ("D,A,X", ["A", "B", "X"]), ("CC,D,B,PC", ["A", "B", "CC", "PC"]), ("A,A", ["A"]),
+                          ("X,X,Y", ["X", "Y"])):
+            yield Form(mn, mn, "reglist.redundant", red, {"mode": "reglist", "regs": sorted(want)}, {"n": len(want)})
+    # the same list strings once more after every mnemonic has been assembled in this process: acceptance must not depend on history
+    for mn, names in STACK_NAMES.items():
+        own = "S" if mn.endswith("S") else "U"
+        for lst in (own, "A," + own, own + ",X", "U,PC" if own == "U" else "S,PC", "X,Y," + own):
+            yield Form(mn, mn, "reglist.own-stack", lst, None, {"after_other_family": True})
 
 
 TFR8 = ["A", "B", "CC", "DP"]
